@@ -1,14 +1,17 @@
-(* The cell lemma for every supported (non-JSON) column type, and DECIMAL in cell_ok form. *)
-From GB Require Import Base.Prelude Base.DecText Model.Cell Spec.Values.
-From GB Require Import Proofs.CellCommon Proofs.CellInt Proofs.CellSimple Proofs.CellTemporal Proofs.DecimalText Proofs.CellDecimal.
+(* The cell lemma for every column type (JSON from C14_json_cell), and DECIMAL in cell_ok form. *)
+From GB Require Import Base.Prelude Base.DecText Model.Cell Model.Json Spec.Values Spec.EncJson.
+From GB Require Import Proofs.CellCommon Proofs.CellInt Proofs.CellSimple Proofs.CellTemporal Proofs.DecimalText Proofs.CellDecimal
+                       Proofs.JsonCell.
+From Coq Require Import ZifyBool.
 Open Scope Z_scope.
 
 Section All.
 Variable ffmt : Z -> Z -> bytes.
 Variable tz : Z -> Z.
+Variable efmt : Z -> bytes.
 Variable jsonp : bytes -> res bytes.
 Hypothesis tz_bounded : forall v, -86400 <= tz v <= 86400.
-Notation cell_ok := (cell_ok ffmt tz jsonp).
+Notation cell_ok := (cell_ok ffmt tz efmt jsonp).
 
 Theorem decimal_ok p s uns neg ip fp :
   wf_type (TNewDecimal p s) = true -> wf_value (TNewDecimal p s) uns (VDecimal neg ip fp) = true ->
@@ -22,15 +25,44 @@ Proof.
   - apply (decimal_length_ok p s neg ip fp pre rest Ht).
 Qed.
 
+End All.
+
 Definition not_json (ty : coltype) : bool := match ty with TJson _ => false | _ => true end.
 
-(* every non-JSON type: the value decoder returns the canonical text and the consumed size, and the length rule agrees *)
-Theorem cell_ok_all ty uns v :
-  not_json ty = true -> wf_type ty = true -> wf_value ty uns v = true -> cell_ok ty uns v.
+Section AllTypes.
+Variable ffmt : Z -> Z -> bytes.
+Variable tz : Z -> Z.
+Variable efmt : Z -> bytes.
+Hypothesis tz_bounded : forall v, -86400 <= tz v <= 86400.
+
+(* a JSON cell: lb length bytes, then the binary document; the printer is the model of printJSONData with the
+   same 'E' formatting oracle as the specification's rendering (C14_json_cell) *)
+Theorem json_ok lb uns d :
+  wf_type (TJson lb) = true -> wf_value (TJson lb) uns (VJson d) = true ->
+  cell_ok ffmt tz efmt (print_json efmt) (TJson lb) uns (VJson d).
+Proof.
+  intros Ht Hwf pre rest. cbn [wf_type wf_value] in *. cbn [enc_cell code_of meta_of text].
+  apply andb_true_iff in Hwf as [Hd Hfit].
+  assert (Hlb : 1 <= lb <= 4) by lia.
+  assert (Hl : 0 <= len (ser d) < 256 ^ lb) by (pose proof (len_nonneg (ser d)); lia).
+  rewrite len_app, len_le_enc, Z2Nat.id by lia.
+  split.
+  - rewrite <- app_assoc. apply (json_cell_all ffmt tz efmt d pre rest lb uns Hd Hlb). lia.
+  - destruct (blob_payload_ok ffmt tz efmt (print_json efmt) pre (ser d) rest lb Hlb Hl) as [B1 _].
+    change (cell_length ?dd ?p 245 ?m) with (do l <- blob_len dd p m; Ok (m + l)).
+    rewrite B1. reflexivity.
+Qed.
+
+(* the JSON printer oracle matters for JSON columns only: there it is the model of printJSONData *)
+Definition jsonp_for (jsonp : bytes -> res bytes) (ty : coltype) : Prop :=
+  not_json ty = true \/ jsonp = print_json efmt.
+
+(* every column type: the value decoder returns the canonical text and the consumed size, and the length rule agrees *)
+Theorem cell_ok_all jsonp ty uns v :
+  jsonp_for jsonp ty -> wf_type ty = true -> wf_value ty uns v = true -> cell_ok ffmt tz efmt jsonp ty uns v.
 Proof.
   intros Hj Ht Hv.
-  destruct ty; try discriminate Hj;
-    destruct v; try (cbn [wf_value] in Hv; discriminate Hv).
+  destruct ty; destruct v; try (cbn [wf_value] in Hv; discriminate Hv).
   - apply int_ok; auto.
   - apply int_ok; auto.
   - apply int_ok; auto.
@@ -54,9 +86,10 @@ Proof.
   - apply char_ok; auto.
   - apply blob_ok; auto.
   - apply geometry_ok; auto.
+  - destruct Hj as [Hj | ->]; [discriminate Hj|]. apply json_ok; auto.
 Qed.
 
-End All.
+End AllTypes.
 
 (* the canonical DECIMAL text: optional '-', integer digits without leading zeros (a single 0 when there are none),
    and exactly the s fraction digits after a '.', denoting the same integer and fraction digit values *)
